@@ -8,6 +8,7 @@
 #define CNL_IMPL_OVERFLOW_GENERIC_H
 
 #include "../custom_operator/definition.h"
+#include "../num_traits/width.h"
 #include "../polarity.h"
 #include "builtin_overflow.h"
 #include "is_overflow.h"
@@ -15,6 +16,7 @@
 #include "native.h"
 #include "overflow_operator.h"
 
+#include <algorithm>
 #include <type_traits>
 
 /// compositional numeric library
@@ -137,6 +139,9 @@ namespace cnl {
                          ? _impl::overflow_operator<
                                  Operator, _impl::common_overflow_tag_t<LhsTag, RhsTag>,
                                  _impl::polarity::negative>{}(lhs, rhs)
+                 // every bit of lhs is shifted out of the result; fundamental shift is undefined
+                 : rhs >= std::max(_impl::width<_impl::op_result<Operator, Lhs, Rhs>>, _impl::width<Lhs>)
+                         ? static_cast<_impl::op_result<Operator, Lhs, Rhs>>(lhs < 0 ? -1 : 0)
                          : Operator{}(lhs, rhs);
         }
     };
